@@ -92,7 +92,7 @@ Record dconf := mkD {
   dlog : list (nat * dsec * bool);      (* ghost: the sections in execution order, with thread and reported result *)
   dbad : bool;                          (* ghost: the map or a list was touched without its mutex *)
   dcnt : nat -> N;                      (* currentCounter of each event's list *)
-  dvis : list (nat * nat * nat)         (* the callbacks the walks called: (thread, event, callback), oldest first *)
+  dvis : list (nat * nat * nat)         (* the nodes whose callbacks the walks called: (thread, event, node), oldest first *)
 }.
 
 Definition owner_is (o : option nat) (t : nat) : bool := match o with Some u => Nat.eqb u t | None => false end.
@@ -137,7 +137,7 @@ Definition walk_next (c : dconf) (e : nat) (cur : option nat) : option nat :=
   end.
 Definition walk_calls (c : dconf) (t e n : nat) (capt : N) : list (nat * nat * nat) :=
   match node_of c e n with
-  | Some nd => if GenCL.visit_cond (ctr nd) capt then [(t, e, cb nd)] else []
+  | Some nd => if GenCL.visit_cond (ctr nd) capt then [(t, e, n)] else []
   | None => []
   end.
 
@@ -646,5 +646,5 @@ Example dispatcher_machine_example :
   map (fun y => fst (fst y)) (dlog c) = [2; 0; 1; 0; 2] /\
   dbad c = false /\ lkL c = None /\ map (thr c) [0; 1; 2; 3] = [(Idle, []); (Idle, []); (Idle, []); (Idle, [])] /\
   dget (dmap c) 7 = fst (run_secs empty_group [SBack 1 1%N; SFront 2 2%N; SRemove (Some 0)]) /\ dmap c 4 = None /\
-  dvis c = [(3, 7, 2)] /\ dcnt c 7 = 2%N.
+  dvis c = [(3, 7, 1)] /\ dcnt c 7 = 2%N.
 Proof. vm_compute. repeat split. Qed.
